@@ -26,7 +26,6 @@ type StakingKeeper interface {
 		fn func(index int64, del sdk.DelegationI) (stop bool),
 	) error
 
-	GetDelegatorBonded(ctx context.Context, delegator sdk.AccAddress) (math.Int, error)
 	TotalBondedTokens(ctx context.Context) (math.Int, error)
 }
 
@@ -43,11 +42,16 @@ func ProvideCalculateVoteResultsAndVotingPowerFn(authKeeper AccountKeeper, staki
 		// <sunrise>
 		// Deduct shareclass module's delegations
 		shareclassAddr := authKeeper.GetModuleAddress(shareclasstypes.ModuleName)
+		// non-voting stake on the tallied (bonded) validators, in tokens
+		shareclassBonded := math.LegacyZeroDec()
 		err = stakingKeeper.IterateDelegations(ctx, shareclassAddr, func(index int64, delegation sdk.DelegationI) (stop bool) {
 			valAddrStr := delegation.GetValidatorAddr()
 			if val, ok := validators[valAddrStr]; ok {
 				val.DelegatorDeductions = val.DelegatorDeductions.Add(delegation.GetShares())
 				validators[valAddrStr] = val
+
+				// delegation shares * bonded / total shares
+				shareclassBonded = shareclassBonded.Add(delegation.GetShares().MulInt(val.BondedTokens).Quo(val.DelegatorShares))
 			}
 			return false
 		})
@@ -148,20 +152,19 @@ func ProvideCalculateVoteResultsAndVotingPowerFn(authKeeper AccountKeeper, staki
 		// totalVoterPowerCustom / totalBonded = totalVoterPower / (totalBonded - shareclassBonded)
 		// (totalVoterPower never contains the shareclass module's voting power: its delegations are deducted from
 		// every validator above and its own votes are skipped, so it must not be subtracted a second time)
-		shareclassBonded, err := stakingKeeper.GetDelegatorBonded(ctx, shareclassAddr)
-		if err != nil {
-			return math.LegacyDec{}, nil, err
-		}
+		// shareclassBonded is what the shareclass module has delegated to the validators of this tally. It is not
+		// stakingKeeper.GetDelegatorBonded: that also counts delegations to validators that are not bonded (jailed,
+		// unbonding), which are not part of totalBonded.
 		totalBonded, err := stakingKeeper.TotalBondedTokens(ctx)
 		if err != nil {
 			return math.LegacyDec{}, nil, err
 		}
 		// When all bonded stake is non-voting nobody has voting power (totalVP is zero) and there is nothing to
 		// rescale; dividing by the zero denominator would panic in the gov EndBlocker.
-		denominator := totalBonded.Sub(shareclassBonded)
+		denominator := math.LegacyNewDecFromInt(totalBonded).Sub(shareclassBonded)
 		if denominator.IsPositive() {
 			numerator := totalVP.MulInt(totalBonded)
-			totalVP = numerator.Quo(math.LegacyNewDecFromInt(denominator))
+			totalVP = numerator.Quo(denominator)
 		}
 		// <sunrise />
 
